@@ -35,7 +35,7 @@ def budget(tier):
 def strategy_(draw, tier):
     mol = draw(st.one_of(gens.mols(tier, wide=True), gens.mols(tier), gens.fam_er(130 if tier == "quick" else 400, wide=True)))
     n = len(mol["atoms"])
-    return {"mol": mol, "order": draw(gens.perms(n))}
+    return {"mol": mol, "order": draw(gens.perms(n)), "post": draw(st.sampled_from(["none", "none", "relabel", "recanon"]))}
 
 
 def strategy(tier):
@@ -45,7 +45,10 @@ def strategy(tier):
 def check(case, stats):
     mol = Mol.from_json(case["mol"])
     n = mol.n
-    g = mol_to_graph(mol, case["order"])
+    from .c01 import post_process
+
+    g = post_process(mol_to_graph(mol, case["order"]), {"post": case.get("post", "none"), "pi": case["order"]})
+    stats.label("post:" + case.get("post", "none"))
     s = pipeline(g, "first")
     g2 = call("parse", graph_from_tucan, s)
     stats.evaluated()
